@@ -180,6 +180,13 @@ func genConfig(r *rand.Rand, ci int) *config {
 	}
 	r.Shuffle(len(ups), func(i, j int) { ups[i], ups[j] = ups[j], ups[i] })
 
+	c.dress(r, ups)
+	c.ups = ups
+	return c
+}
+
+// dress gives every upstream its tag, provider slug, ONE rule kind, options and its sut spec.
+func (c *config) dress(r *rand.Rand, ups []*upstream) {
 	shared := "shared" + word(r, 3) + ".test"
 	for i, u := range ups {
 		u.idx = i
@@ -228,8 +235,6 @@ func genConfig(r *rand.Rand, ci int) *config {
 			u.spec.ProviderSlug = u.slug
 		}
 	}
-	c.ups = ups
-	return c
 }
 
 func (c *config) close() {
@@ -273,6 +278,28 @@ func (c *config) resolve(host string) resolution {
 		}
 	}
 	return res
+}
+
+// resolveNorm is the same router under the reading that host names are case-insensitive and a
+// trailing dot is ignored: every simple route the name denotes that way, else the first rewrite
+// route whose pattern matches the normalised name.
+func (c *config) resolveNorm(host string) []resolution {
+	h := norm(host)
+	var out []resolution
+	for _, u := range c.ups {
+		if u.simple && norm(u.from) == h {
+			out = append(out, resolution{u: u, addr: u.to, exact: true, full: true})
+		}
+	}
+	if len(out) > 0 {
+		return out
+	}
+	for _, u := range c.ups {
+		if !u.simple && u.re.MatchString(h) {
+			return []resolution{{u: u, addr: u.re.ReplaceAllString(h, u.to), full: u.re.FindString(h) == h}}
+		}
+	}
+	return []resolution{{}}
 }
 
 func same(a, b resolution) bool { return a.u == b.u && a.addr == b.addr }
